@@ -510,6 +510,89 @@ pub fn run(args: &Args, out: &mut Out) {
             }
         }
     }
+    run_dialects(out);
+}
+
+// ---- statements of the other dialects: a filter comment directly before ANY statement covers that statement ----------
+
+/// (library, text before, the statement, text after, lint reported inside the statement)
+const DIALECT_STMTS: &[(&str, &str, &str, &str, &str)] = &[
+    ("lua52", "local x = 1\n", "goto done", "\ndo print(x) end\n::done::\n", ""),
+    ("lua52", "do\n  print(1) ", "goto done", "\nend\n::done::\n", "multiple_statements"),
+    ("lua52", "print(1) ", "::first::", " print(2)\ngoto first\n", "multiple_statements"),
+    ("lua52", "print(1)\n::a:: ", "::b::", "\ngoto a\ngoto b\n", "multiple_statements"),
+    ("lua52", "", "local unused_a = 1", "\n::l:: goto l\n", "unused_variable"),
+    ("lua52", "::top::\n", "if undefined_b then goto top end", "\n", "undefined_variable"),
+    ("luau", "", "type function build()\n  local unused_c = 1\n  return nil\nend", "\n", "unused_variable"),
+    ("luau", "", "export type function build()\n  local unused_d = 1\n  return nil\nend", "\n", "unused_variable"),
+    ("luau", "local n = 1\n", "n += undefined_e", "\nprint(n)\n", "undefined_variable"),
+    ("luau", "", "type Pair = { first: number, second: typeof(undefined_f) }", "\n", "undefined_variable"),
+    ("luau", "for i = 1, 2 do\n  ", "if i == undefined_g then continue end", "\nend\n", "undefined_variable"),
+    ("luau", "", "local unused_h: number = 1", "\n", "unused_variable"),
+    ("lua51", "", "local unused_i = 1", "\n", "unused_variable"),
+    ("lua51", "print(1) ", "print(2)", "\n", "multiple_statements"),
+];
+
+fn canon_diag(d: &CheckerDiagnostic, shift_from: usize, shift: i64) -> String {
+    let mv = |p: u32| -> i64 { if (p as usize) >= shift_from { p as i64 + shift } else { p as i64 } };
+    format!("{}|{}..{}|{:?}|{}", d.diagnostic.code, mv(d.diagnostic.primary_label.range.0), mv(d.diagnostic.primary_label.range.1), d.severity, d.diagnostic.message)
+}
+
+/// the same program without and with `--[[ selene: V(L) ]]` directly before one statement: exactly the diagnostics of L that
+/// start inside that statement change (removed / re-labelled), whatever kind of statement it is and whatever the dialect
+pub fn run_dialects(out: &mut Out) {
+    for (libname, before, stmt, after, lint) in DIALECT_STMTS {
+        let lib = match StandardLibrary::from_name(libname) {
+            Some(l) => l,
+            None => continue,
+        };
+        let (version, _) = lib.lua_version();
+        let checker: Checker<toml::value::Value> = Checker::new(CheckerConfig::default(), lib).unwrap();
+        let plain = format!("{before}{stmt}{after}");
+        let lints: Vec<&str> = if lint.is_empty() { vec!["unused_variable"] } else { vec![lint, "divide_by_zero"] };
+        for l in lints {
+            for variation in ["allow", "deny"] {
+                let comment = format!("--[[ selene: {variation}({l}) ]] ");
+                let filtered = format!("{before}{comment}{stmt}{after}");
+                let run = |src: &str| -> Option<Vec<CheckerDiagnostic>> {
+                    let ast = std::panic::catch_unwind(|| full_moon::parse_fallible(src, version).into_result()).ok()?.ok()?;
+                    std::panic::catch_unwind(std::panic::AssertUnwindSafe(|| checker.test_on(&ast))).ok()
+                };
+                let (a, b) = match (run(&plain), run(&filtered)) {
+                    (Some(a), Some(b)) => (a, b),
+                    _ => {
+                        out.bump("dialect_template_did_not_parse_or_panicked");
+                        continue;
+                    }
+                };
+                let (s0, s1) = (before.len(), before.len() + stmt.len());
+                let mut expected: Vec<String> = Vec::new();
+                for d in &a {
+                    let start = d.diagnostic.primary_label.range.0 as usize;
+                    let inside = d.diagnostic.code == l && start >= s0 && start < s1;
+                    if inside && variation == "allow" {
+                        continue;
+                    }
+                    let mut c = canon_diag(d, s0, comment.len() as i64);
+                    if inside {
+                        c = c.replace(&format!("|{:?}|", d.severity), "|Error|");
+                    }
+                    expected.push(c);
+                }
+                expected.sort();
+                let mut got: Vec<String> = b.iter().map(|d| canon_diag(d, 0, 0)).collect();
+                got.sort();
+                if a.iter().any(|d| d.diagnostic.code == l && (d.diagnostic.primary_label.range.0 as usize) >= s0 && (d.diagnostic.primary_label.range.0 as usize) < s1) {
+                    out.bump("dialect_filter_covers_a_diagnostic");
+                }
+                out.case(
+                    "C08.direct",
+                    &list(vec![st(*libname), st(*stmt), st(l), st(variation), st(&filtered)]),
+                    &list(vec![list(got.iter().map(st).collect()), list(expected.iter().map(st).collect())]),
+                );
+            }
+        }
+    }
 }
 
 /// C10: the same program under several severity assignments
@@ -523,8 +606,28 @@ pub fn run_c10(args: &Args, out: &mut Out) {
             Err(_) => continue,
         };
         let mut runs: Vec<Sx> = Vec::new();
+        // the same non-default lint options under every severity assignment: what a lint finds is a matter of its options,
+        // never of the severity it is configured with (an allowed lint still runs, and an inline filter may re-enable it)
+        let mut options: HashMap<String, toml::value::Value> = HashMap::new();
+        let mut opt = |lint: &str, key: &str, v: toml::value::Value, r: &mut Rng| {
+            if r.chance(1, 2) {
+                let mut t = toml::value::Table::new();
+                t.insert(key.to_owned(), v);
+                options.insert(lint.to_owned(), toml::value::Value::Table(t));
+            }
+        };
+        opt("unused_variable", "ignore_pattern", toml::value::Value::String("^a".to_owned()), &mut rng);
+        opt("shadowing", "ignore_pattern", toml::value::Value::String("^b".to_owned()), &mut rng);
+        opt("high_cyclomatic_complexity", "maximum_complexity", toml::value::Value::Integer(1), &mut rng);
+        opt("empty_if", "comments_count", toml::value::Value::Boolean(true), &mut rng);
+        opt("empty_loop", "comments_count", toml::value::Value::Boolean(true), &mut rng);
+        opt("unscoped_variables", "ignore_pattern", toml::value::Value::String("^c".to_owned()), &mut rng);
+        if !options.is_empty() {
+            out.bump("program_with_lint_options");
+        }
         for k in 0..4 {
             let (config, cfg_sx) = if k == 0 { (CheckerConfig::default(), list(vec![])) } else { random_config(&mut rng) };
+            let config = CheckerConfig { config: options.clone(), ..config };
             let checker: Checker<toml::value::Value> = Checker::new(config, std.clone()).unwrap();
             let unf = checker.verif_test_on_unfiltered(&ast);
             let filtered = checker.test_on(&ast);
